@@ -107,6 +107,7 @@ pub struct Shared {
     pub stats: Mutex<RunStats>,
     pub scratch: Mutex<Option<std::path::PathBuf>>,
     pub file_ctr: AtomicUsize,
+    pub cli: Mutex<crate::cli::CliState>,
 }
 
 impl Shared {
@@ -120,6 +121,16 @@ impl Shared {
         self.stats.lock().unwrap().shapes.insert(key);
     }
     /// per-run scratch directory (created lazily, removed after the run)
+    pub fn scratch_dir(&self) -> Result<std::path::PathBuf, OpErr> {
+        let mut g = self.scratch.lock().unwrap();
+        if g.is_none() {
+            static CTR2: AtomicUsize = AtomicUsize::new(0);
+            let d = std::env::temp_dir().join(format!("b3sim.{}.d{}", std::process::id(), CTR2.fetch_add(1, Ordering::Relaxed)));
+            std::fs::create_dir_all(&d).map_err(|e| OpErr::Harness(format!("scratch: {e}")))?;
+            *g = Some(d);
+        }
+        Ok(g.as_ref().unwrap().clone())
+    }
     pub fn scratch_file(&self, bytes: &[u8]) -> Result<std::path::PathBuf, OpErr> {
         let mut g = self.scratch.lock().unwrap();
         if g.is_none() {
@@ -376,6 +387,7 @@ pub fn exec(plan: &Plan) -> ExecOut {
         stats: Mutex::new(RunStats::default()),
         scratch: Mutex::new(None),
         file_ctr: AtomicUsize::new(0),
+        cli: Mutex::new(crate::cli::CliState::default()),
     });
     if n == 0 {
         return finish(shared, true);
